@@ -499,6 +499,7 @@ func staleDeleteScenario() []op {
 
 func runCase(e *etcdx.Etcd, admin *clientv3.Client, root string, nmem int, ops []op) (caseRec, bool) {
 	w := &world{e: e, admin: admin, root: root, known: map[clientv3.LeaseID]bool{}, short: map[int]time.Time{}}
+	defer e.CloseFrom(e.Mark())
 	ctx, cancel := context.WithTimeout(context.Background(), 5*time.Second)
 	r0, err := admin.Leases(ctx)
 	cancel()
